@@ -247,17 +247,17 @@ impl Property for C05 {
                 Err(Failure::new("missing-file-not-reported", format!("the joined file does not exist but the query gave {:?} / {:?}\n  {}", real.records(), real.result, context)))
             };
         }
-        if ri.is_none() || (li.is_none() && !lrows.is_empty()) {
+        if ri.is_none() || li.is_none() {
+            // "reported as an error, never as an empty result": also when no admitted row of the queried input reaches the join
             obs.label("missing-join-column");
             return if real.result.is_err() {
                 Ok(())
             } else {
-                Err(Failure::new("missing-join-column-not-reported", format!("the join column does not exist but the query gave {:?}\n  {}", real.records(), context)))
+                Err(Failure::new(
+                    if lrows.is_empty() { "missing-join-column-not-reported: no admitted row in the queried input" } else { "missing-join-column-not-reported" },
+                    format!("the join column does not exist but the query gave {:?}\n  {}", real.records(), context),
+                ))
             };
-        }
-        if li.is_none() {
-            obs.unspecified += 1;
-            return Ok(());
         }
         let (li, ri) = (li.unwrap(), ri.unwrap());
 
